@@ -238,12 +238,15 @@ def run(cx):
                     op = rv["ops"][rv["fields"].index("keepalive_interval_ms")]
                     found = True
                     # the operand is a multi-def local: Some(cfg.interval) under keepalive, None otherwise
-                    l = op["pl"]["l"]
+                    from rules import root_local
+                    l = root_local(b, op)
+                    if l is None:
+                        l = op["pl"]["l"]
                     okS = okN = False
                     for dloc, kind, node in b.defs.get(l, []):
                         e = show(b.rvalue_expr(node["rv"])) if kind == "assign" else ""
                         alts = cx.fa(b).at(dloc)
-                        if e == "Some{arg1.config.endpoint_config.keepalive_interval_ms}":
+                        if e in ("Some{arg1.config.endpoint_config.keepalive_interval_ms}", "Some{arg1.config.keepalive_interval_ms}"):
                             g, _ = dnf_holds(alts, [[r"arg1\.config\.endpoint_config\.keepalive"]])
                             okS = g
                         elif e == "None{}":
